@@ -291,7 +291,14 @@ fn minimise(prop: &str, trace: &Trace, sig: &str, tmp: &Path, timeout: Duration,
     let mut best = trace.clone();
     // cut everything after the violating event
     let mut tries = 0usize;
+    // wall budget: traces of thousands of events take seconds per candidate; what has been
+    // removed when the time is up is kept
+    let deadline = Instant::now() + Duration::from_secs(240);
     let test = |t: &Trace, tries: &mut usize| -> bool {
+        if Instant::now() > deadline {
+            *tries = (*tries).max(budget);
+            return false;
+        }
         *tries += 1;
         write_trace(tmp, t);
         let (raw, _) = replay_subprocess(tmp, timeout);
